@@ -855,7 +855,7 @@ namespace occa {
 
       if (!isQuoted && !isAngleBracket) {
         printError("Not able to parse header");
-        return NULL;
+        return "";
       }
 
       // Push after in case of whitespace
@@ -876,7 +876,7 @@ namespace occa {
         printError("Not able to find a closing >");
         pop();
         pop();
-        return NULL;
+        return "";
       }
       const std::string header = str();
       pop();
